@@ -459,6 +459,38 @@ func checkC12(p *Prog, r *Report) {
 		})
 		r.Check(bad == 0, "removeClosedConn deletes only entries equal to the closed connection", p.Pos(f.Body.Pos()), "every delete dominated by entry == conn", itoa(bad)+" deletions are not guarded by an identity comparison with the closed connection")
 	}
+
+	// ---- R12.7 membership is decided from what takeover edits ---------------------------------------------
+	r.Rule("R12.7", "Whether a connection already owns a source address (and therefore skips re-registering it) is decided only from state that every function editing the connection's address list also updates: a memo of the membership answer must be reset wherever the list changes, otherwise the previous owner of an address does not take it back after a takeover.", 1)
+	if f := p.Fn("udpMuxedConn.containsAddress"); r.Anchor("udpMuxedConn.containsAddress", f != nil) {
+		bad := p.cacheIncoherence(f, []string{"udpMuxedConn.addresses"}, func(g *Func) bool { return g.Root().Name == "newUDPMuxedConn" })
+		r.Check(len(bad) == 0, "containsAddress depends only on state kept in step with the address list", p.Pos(f.Body.Pos()), "reads the address list (and nothing that list edits leave stale)", strings.Join(bad, "; "))
+	}
+	// removal drops the bindings of every removed connection
+	r.curRule = "R12.4"
+	if f := p.Fn("UDPMuxDefault.RemoveConnByUfrag"); f != nil {
+		walkBody(f, func(n ast.Node) bool {
+			rs, ok := n.(*ast.RangeStmt)
+			if !ok || typeStr(p.TypeOf(rs.X)) != "[]*ice.udpMuxedConn" {
+				return true
+			}
+			skips := p.iterationSkips(f, rs, func(nd ast.Node) bool {
+				// entering the loop over the connection's addresses
+				e, isE := nd.(ast.Expr)
+				if !isE {
+					return false
+				}
+				for x, inner := range p.NewOwn().rangesOf(f) {
+					if x == e && inner != rs {
+						return true
+					}
+				}
+				return false
+			}, nil)
+			r.Check(!skips, "RemoveConnByUfrag drops the bindings of every removed connection", p.Pos(rs.Pos()), "no removed connection is skipped", "a removed connection (e.g. one that is already closed) keeps its entries in the address map: datagrams from those sources are routed to a dead connection and never reach the ufrag registered next")
+			return true
+		})
+	}
 }
 
 // reachesViaRead: every path from b to target passes the socket read (i.e.
